@@ -259,7 +259,7 @@ func buildPlan(m *Meta, tier string) plan {
 						continue
 					}
 					p.cases = append(p.cases, Case{M: mu, Sit: sit, Mode: "E"})
-					if !quick && (sit == "absent" || sit == "diverged") {
+					if !quick && full && (sit == "absent" || sit == "diverged") {
 						p.cases = append(p.cases, Case{M: mu, Sit: sit, Mode: "C"})
 					}
 				}
@@ -272,7 +272,7 @@ func buildPlan(m *Meta, tier string) plan {
 	if quick {
 		p.note = append(p.note, "quick tier: structural mutants in every local situation through MergeAll on the repository (E), as corrupt local data (L), through the cache in the diverged situation (C), through fetch + cache merge in the absent situation (P); byte edits of one operation pack (two operations) and one identity version in the absent situation (E) and as corrupt local data (L)")
 	} else {
-		p.note = append(p.note, "thorough tier: structural mutants in every situation and every mode; byte edits of every blob in every situation (E), absent and diverged through the cache (C), and as corrupt local data (L)")
+		p.note = append(p.note, "thorough tier: structural mutants in every situation and every mode; byte edits of every blob (except one armored key) in every situation (E) and as corrupt local data (L), those of one operation pack and one identity version also through the cache in the absent and diverged situations (C)")
 	}
 	return p
 }
